@@ -367,7 +367,7 @@ def check(pid, tier):
     r3 = None
     e1_only = os.environ.get("VX_KILL_E1_ONLY") == "1"
     if spec.get("kani") and not e1_only:
-        r3 = e3.run(spec["kani"], tier, log)
+        r3 = e3.run(spec["kani"], tier, log, pid)
         for h in r3["harnesses"]:
             if h["status"] == "FAILED":
                 violations.append({"source": "E3/kani", "what": "%s: %s" % (h["name"], h["detail"][:300]), "obligation": h,
